@@ -32,7 +32,7 @@ def main():
     cells = {(p[-3]["entry"], p[-3]["slot"], p[-3]["kind"], p[-3]["with"]) for p in paths}
     jobs = core.path_jobs(paths, "b", [])
     # random histories with invalid callable results
-    n_rand = 1500 if thorough else 300
+    n_rand = 6000 if thorough else 400
     for i in range(n_rand):
         g = gen.Gen(rep.seed * 99991 + i, focus={"update": 7, "update_all": 3, "fail": 0.6, "bad": 0.3}, handles=0.2)
         kind, ai = traces.CONFIGS[i % 4]
